@@ -15,7 +15,7 @@ from . import theories as TH
 from .api import CLASSES, CONTRACTS
 from .frontend import mangle, strip_docstring
 from .values import *  # noqa: F401,F403
-from .values import TFilePtr, VFilePtr  # noqa: E402
+from .values import TFilePtr, VFilePtr, VZip  # noqa: E402
 from .values import (Flattener, T, TAny, TBool, TFunc, TInt, TMap, TNone, TObj, TOpt, TReal, TSeq, TStr, TStream,
                      TTuple, V, VBool, VBoundMethod, VBuiltin, VClass, VEnum, VFunc, VInt, VMap, VModule, VNone,
                      VOpaque, VOpt, VRange, VReal, VRef, VSeq, VStr, VStream, VStruct, VStructFmt, VTuple,
@@ -31,6 +31,15 @@ class Obligation:
 
     def __init__(self, name, pc, goal, line=0, kind="ensures", func=""):
         self.name, self.pc, self.goal, self.line, self.kind, self.func = name, list(pc), goal, line, kind, func
+
+
+class NeedsFork(Exception):
+    """an inlined helper (a function without contract) returned along several paths, or along none: only a statement
+    whose whole value is that call can continue on each of them"""
+
+    def __init__(self, node, conts):
+        super().__init__("call of a multi-path helper without contract inside an expression")
+        self.node, self.conts = node, conts
 
 
 class Exit:
@@ -53,6 +62,7 @@ class State:
         self.nwrites = [0]      # shared counter of state writes (to reject side effects in conditional expressions)
         self.rebound = set()    # list fields assigned a fresh list object in this function
         self.rebindcnt = {}     # list field -> number of times it was bound to another list object
+        self.aliasof = {}       # local name -> location of the list / dict field whose OBJECT the local denotes
 
     def fork(self):
         s = State.__new__(State)
@@ -68,6 +78,7 @@ class State:
         s.nwrites = self.nwrites
         s.rebound = set(self.rebound)
         s.rebindcnt = dict(self.rebindcnt)
+        s.aliasof = dict(self.aliasof)
         s.fs = self.fs
         return s
 
@@ -222,6 +233,7 @@ class Exec:
         k = loc[0]
         if k == "var":
             st.env[loc[1]] = v
+            st.aliasof.pop(loc[1], None)
             if structural:
                 st.epochs[loc] = st.epochs.get(loc, 0) + 1
         elif k == "obj":
@@ -253,6 +265,17 @@ class Exec:
             self.write(st, loc[1], self.seq_set(st, parent, loc[2], v), structural=False, _log=False)
         else:
             raise Unsupported(f"bad location {loc}")
+
+    def detach_aliases(self, st, loc, stale=False):
+        """the field at `loc` is about to be bound to ANOTHER list object: locals that denote the old object keep its
+        content as of now (stale=True: a callee did it, the old object's content is unknown)"""
+        for n, l in list(st.aliasof.items()):
+            if l == loc:
+                if stale:
+                    st.aliasof[n] = ("stale",)
+                else:
+                    del st.aliasof[n]      # st.env[n] already holds ... refresh it with the current content
+                    st.env[n] = self.read(st, loc)
 
     def check_rebinds(self, st, key):
         must = getattr(self, "rebind_keys", ())
@@ -485,7 +508,13 @@ class Exec:
             v = self.eval(fv.value, st)
             if isinstance(v, (VInt, VBool)):
                 from . import lib_models
-                spec = ast.unparse(fv.format_spec) if fv.format_spec is not None else ""
+                fs = fv.format_spec
+                if fs is None:
+                    spec = ""
+                elif isinstance(fs, ast.JoinedStr) and all(isinstance(x, ast.Constant) for x in fs.values):
+                    spec = "".join(str(x.value) for x in fs.values)      # the same text format(v, spec) receives
+                else:
+                    spec = ast.unparse(fs)
                 self.lib_used.add("f-string of one int: injective uninterpreted function of (format, value)")
                 from .values import str_code
                 return VStr(lib_models.fmt_int(z3.IntVal(str_code(spec)), as_int(v)))
@@ -493,6 +522,16 @@ class Exec:
 
     def e_Name(self, node, st):
         n = node.id
+        if n in st.aliasof and n in st.env:
+            # a local bound to the list / dict OBJECT held in a field: reads see the field's current content
+            loc = st.aliasof[n]
+            if loc[0] == "stale":
+                raise Unsupported(f"local {n} denotes a list object that a callee replaced in its field")
+            v = self.read(st, loc)
+            if isinstance(v, VSeq):
+                v = VSeq(v.comps, v.ln, v.et, v.kind)
+                v._loc = loc
+            return v
         if n in st.env:
             v = st.env[n]
             if not self.spec:
@@ -1129,6 +1168,12 @@ class Exec:
             n = z3.If(it.hi > it.lo, it.hi - it.lo, z3.IntVal(0))
             self.bind_target(st, target, VInt(it.lo + j))
             return z3.simplify(n)
+        if isinstance(it, VEnum) and isinstance(it.seq, VZip):
+            self.bind_target(st, target, VTuple([VInt(j), self.zip_elem(st, it.seq, j)]))
+            return self.zip_len(it.seq)
+        if isinstance(it, VZip):
+            self.bind_target(st, target, self.zip_elem(st, it, j))
+            return self.zip_len(it)
         if isinstance(it, VEnum):
             seq = it.seq
             el = self.seq_elem_value(st, seq, j, it.loc)
@@ -1138,6 +1183,15 @@ class Exec:
             self.bind_target(st, target, self.seq_elem_value(st, it, j, getattr(it, "_loc", None)))
             return it.ln
         raise Unsupported(f"iteration over {it}")
+
+    def zip_len(self, z):
+        n = z.parts[0].ln
+        for p in z.parts[1:]:
+            n = z3.If(p.ln < n, p.ln, n)
+        return z3.simplify(n)
+
+    def zip_elem(self, st, z, j):
+        return VTuple([self.seq_elem_value(st, p, j, l) for p, l in zip(z.parts, z.locs)])
 
     def seq_elem_value(self, st, seq, j, loc):
         v = self.seq_get(seq, j)
@@ -1175,6 +1229,10 @@ class Exec:
             v = st.env.get(node.id)
             if isinstance(v, VRef):
                 return v.loc
+            if node.id in st.aliasof and node.id in st.env:
+                if st.aliasof[node.id][0] == "stale":
+                    raise Unsupported(f"local {node.id} denotes a list object that a callee replaced in its field")
+                return st.aliasof[node.id]
             if node.id in st.env:
                 return ("var", node.id)
             raise Unsupported(f"no location for name {node.id}")
